@@ -1,6 +1,9 @@
 package main
 
-import "fmt"
+import (
+	"fmt"
+	"strings"
+)
 
 var specs = map[string]*spec{}
 
@@ -39,8 +42,23 @@ func init() {
 		"k8s.io/client-go/util/workqueue.NewNamedRateLimitingQueue":    pkgCtl + ".vNewQueueModel",
 		"k8s.io/client-go/util/workqueue.DefaultControllerRateLimiter": pkgCtl + ".vDefaultRateLimiterModel",
 	}
+	bitWords := func(v int, words []string) string {
+		var out []string
+		for k, w := range words {
+			if v&(1<<k) != 0 {
+				out = append(out, w)
+			}
+		}
+		if len(out) == 0 {
+			return "none"
+		}
+		return strings.Join(out, "; ")
+	}
+	stepWords := []string{"policy OrderedReady", "policy Parallel", "no rollout in progress", "set may be deleting", "pods healthy (only ordinal, revision, terminating vary)",
+		"strategy RollingUpdate with a partition", "one server error", "pods may carry a third revision", "arbitrary stored status and generation", "conflict on the status write",
+		"ordinals offset by 8", "slot values arbitrary int32", "pods may be on the server but not in the cache", "a delete may find the pod gone", "revisionHistoryLimit 0", "through the per-key sync (real listing and claiming)"}
 	stepBounds := func(a []int) string {
-		return fmt.Sprintf("one UpdateStatefulSet from a snapshot with <=%d pods at distinct ordinals of [0,%d], replicas in [0,%d], <=%d delete slots with values in [0,%d], options=%#x", a[0], a[1]+a[2], a[1], a[2], a[1]+a[2], a[3])
+		return fmt.Sprintf("one reconcile from a snapshot with <=%d pods at distinct ordinals of [0,%d] (each with symbolic phase in {Pending, Running, Succeeded, Failed, Unknown}, readiness, terminating flag and revision unless stated), replicas in [0,%d], <=%d delete slots with values in [0,%d], policy / strategy / rollingUpdate block / arbitrary non-negative int32 partition symbolic unless fixed; options: %s", a[0], a[1]+a[2], a[1], a[2], a[1]+a[2], bitWords(a[3], stepWords))
 	}
 	const (
 		oPolicyOrdered = 1 << iota
@@ -181,8 +199,12 @@ func init() {
 		nC11
 		nC15
 	)
+	syncWords := []string{"pod owner x labels x name shape vary", "set may be paused", "set may be deleting", "API copy of the set may differ from the cache (other UID, deleting, gone)",
+		"one extra revision over owner x labels x marker, history limit 0", "spec as the CRD admits it (arbitrary strings, optional blocks absent, arbitrary int32 partition and history limit, stale status)",
+		"pod phase / readiness / revision vary", "the set's own revision may be an orphan", "conflict on the status write", "the set may leave the cache mid-reconcile",
+		"selector empty or DoesNotExist, revision with an all-digit hash label", "selector with matchLabels and a NotIn expression"}
 	syncBounds := func(a []int) string {
-		return fmt.Sprintf("one sync(key) from a world with <=%d pods at distinct ordinals of [0,%d], replicas in [0,%d], <=%d delete slots, options=%#x", a[0], a[1]+a[2], a[1], a[2], a[3])
+		return fmt.Sprintf("one sync(key) from a world with <=%d pods at distinct ordinals of [0,%d], replicas in [0,%d], <=%d delete slots; options: %s", a[0], a[1]+a[2], a[1], a[2], bitWords(a[3], syncWords))
 	}
 	syncRun := func(name string, q, t []int, asserts, covers []string) runSpec {
 		return runSpec{Name: name, Pkg: pkgCtl, Func: "VH_Sync", Quick: q, Thorough: t, Bounds: syncBounds, Asserts: asserts, Covers: covers}
